@@ -6,6 +6,7 @@ __all__ = ("CategoryLazyFrozenSet", "PackageMapping", "VersionMapping", "tree")
 
 import typing
 from itertools import chain
+from operator import itemgetter
 from pathlib import Path
 
 from snakeoil.klass import jit_attr
@@ -95,6 +96,21 @@ class VersionMapping(DictMixin):
             self._cache[key] = val
         else:
             self._cache.pop(key, None)
+
+
+class UnversionedKey(tuple):
+    """(category, package) pair yielded by unversioned queries.
+
+    It is a plain tuple that also exposes the pair the way packages do, so
+    that restrictions can be matched against it.
+    """
+
+    __slots__ = ()
+
+    category = property(itemgetter(0))
+    package = property(itemgetter(1))
+    key = property("/".join)
+    version = revision = fullver = None
 
 
 class tree:
@@ -261,7 +277,7 @@ class tree:
             else:
 
                 def raw_pkg_cls(*args):
-                    return args
+                    return UnversionedKey(args)
 
         if isinstance(restrict, atom):
             candidates = [(restrict.category, restrict.package)]
